@@ -43,6 +43,9 @@ type mutCase struct {
 	Fault  string `json:"fault"`
 	Arg    string `json:"arg,omitempty"`
 	Strict bool   `json:"strict,omitempty"` // true: default options; false: IgnoreNotImplemented=all
+	// PlainKeys: the YAML spelling writes response-code keys unquoted (`200:` is
+	// an !!int key, `4XX:` a plain string), as real specs do; otherwise quoted.
+	PlainKeys bool `json:"plain_keys,omitempty"`
 }
 
 func (c mutCase) id() string {
@@ -52,7 +55,7 @@ func (c mutCase) id() string {
 		h.Write([]byte(c.Inline))
 		b = fmt.Sprintf("inline-%x", h.Sum64())
 	}
-	return fmt.Sprintf("%s|%v|%v|%s|%s|%v", b, c.Path, c.Key, c.Fault, c.Arg, c.Strict)
+	return fmt.Sprintf("%s|%v|%v|%s|%s|%v|%v", b, c.Path, c.Key, c.Fault, c.Arg, c.Strict, c.PlainKeys)
 }
 
 // ---- base outcomes (what the unmutated document does) ------------------------------------
@@ -193,7 +196,29 @@ func evalMutant(c mutCase) (o outcome) {
 		o.finding = vk.F("harness-json-emitter", "%v", err)
 		return o
 	}
-	ytext, err := emitYAML(a.Tree)
+	// labels of the key style (what the JSON-vs-YAML clause can see)
+	underResponses := false
+	for _, k := range a.Target {
+		underResponses = underResponses || k == "responses"
+	}
+	anyInt, chainInt := hasPlainIntKey(a.Tree, a.Fault)
+	if underResponses {
+		o.label("under-responses")
+	}
+	switch {
+	case !c.PlainKeys:
+		o.label("yaml-keys:quoted")
+	case chainInt:
+		o.label("yaml-keys:plain-int-key-on-fault-chain")
+	case anyInt:
+		o.label("yaml-keys:plain-int-keys-elsewhere")
+	default:
+		o.label("yaml-keys:plain-style-but-no-int-key")
+	}
+	if underResponses && c.PlainKeys {
+		o.label("under-responses+plain-keys")
+	}
+	ytext, err := emitYAML(a.Tree, c.PlainKeys)
 	var ixY *docIndex
 	if err == nil {
 		ixY, err = indexDoc(ytext, a.Tree)
@@ -456,7 +481,18 @@ var faultWeights = []struct {
 	w int
 }{
 	{"delete", 14}, {"retype", 16}, {"null", 12}, {"empty", 10}, {"escape", 6}, {"dangling", 8},
-	{"cycle", 10}, {"dupname", 10}, {"num", 10}, {"deep", 4},
+	{"cycle", 10}, {"dupname", 10}, {"num", 10}, {"deep", 4}, {"code-key", 6}, {"code-null", 4}, {"code-dup", 4},
+}
+
+// plainKeysFor: 3 of 4 mutants whose fault sits under `responses` use the
+// unquoted response-code keys, 1 of 2 of the others (r is uniform in 0..3).
+func plainKeysFor(tree *node, path []int, r uint64) bool {
+	for _, k := range tree.keyPath(path) {
+		if k == "responses" {
+			return r%4 != 0
+		}
+	}
+	return r%2 == 0
 }
 
 // drawMutant: rapid supplies entropy only (its integer generators are biased
@@ -496,7 +532,8 @@ func drawMutant(bases []*baseSpec) func(t *rapid.T) mutCase {
 					continue
 				}
 			}
-			return mutCase{Base: b.Rel, Path: s.Path, Key: s.Key, Fault: f, Arg: arg, Strict: pick("strict", 4) == 0}
+			return mutCase{Base: b.Rel, Path: s.Path, Key: s.Key, Fault: f, Arg: arg, Strict: pick("strict", 4) == 0,
+				PlainKeys: plainKeysFor(b.tree, s.Path, uint64(pick("plain", 4)))}
 		}
 	}
 }
@@ -538,6 +575,14 @@ func regressionMutants() []mutCase {
 		add(find("paths", "/a/{id}", "get", "parameters", "1", "name"), false, "dupname", "")
 		add(pet, true, "empty", "")
 		add(pet, false, "delete", "")
+		// response-code keys written unquoted in YAML (`200:` is an !!int key)
+		r200 := find("paths", "/a/{id}", "get", "responses", "200")
+		add(r200, true, "code-key", "600", "99", "1000", "0", "-1", "99999999999999999999", "6XX", "0200", "418", "2XX")
+		add(r200, false, "code-null", "")
+		add(r200, true, "code-dup", "")
+		add(find("paths", "/b", "get", "responses", "200"), true, "code-key", "600")
+		add(find("paths", "/a/{id}", "get", "responses", "200", "description"), false, "null", "")
+		add(find("paths", "/a/{id}", "get", "responses", "200", "description"), false, "retype", "seq-wrap")
 	})
 	out = append(out, regressionMutantsOf(miniSpec2, func(find func(keys ...string) []int, add func(path []int, key bool, fault string, args ...string)) {
 		op := []string{"paths", "/f", "post"}
@@ -594,7 +639,7 @@ func regressionMutantsOf(spec string, build func(find func(keys ...string) []int
 	add := func(path []int, key bool, fault string, args ...string) {
 		for _, arg := range args {
 			for _, strict := range []bool{false, true} {
-				out = append(out, mutCase{Inline: spec, Path: path, Key: key, Fault: fault, Arg: arg, Strict: strict})
+				out = append(out, mutCase{Inline: spec, Path: path, Key: key, Fault: fault, Arg: arg, Strict: strict, PlainKeys: true})
 			}
 		}
 	}
@@ -732,7 +777,8 @@ func enumerateMutants(u *vk.Unit, check func(mutCase) *vk.Finding) {
 				}
 				vs := variants(b.tree, f, s)
 				arg := vs[(h>>8)%uint64(len(vs))]
-				c := mutCase{Base: b.Rel, Path: s.Path, Key: s.Key, Fault: f, Arg: arg, Strict: (h>>20)%4 == 0}
+				c := mutCase{Base: b.Rel, Path: s.Path, Key: s.Key, Fault: f, Arg: arg, Strict: (h>>20)%4 == 0,
+					PlainKeys: plainKeysFor(b.tree, s.Path, (h>>24)%4)}
 				if exhaustive {
 					enumerated++
 				} else {
